@@ -212,7 +212,7 @@ func c10Program(r *core.Rng) []ast.Node {
 	for k := r.Range(6, 16); k > 0; k-- {
 		a := nm(vars[r.Intn(len(vars))])
 		b := nm(vars[r.Intn(len(vars))])
-		switch r.Intn(13) {
+		switch r.Intn(14) {
 		case 0: // slice of a (possibly sliced) array: index bounds from its length
 			v := newVar("ya")
 			ss = append(ss, ast.Assign{Name: v, Value: ast.Slice{X: a, I: il(int64(r.Intn(2))), J: ast.Binary{Op: "-", L: ast.Unary{Op: "#", X: a}, R: il(int64(r.Intn(2)))}}})
@@ -261,6 +261,22 @@ func c10Program(r *core.Rng) []ast.Node {
 				icall("zmod", a))
 		case 10: // iterate and index
 			ss = append(ss, ast.For{Vars: []string{"ze"}, Iters: []ast.Node{icall("elems", a)}, Body: ast.Binary{Op: "+", L: ast.ArrayLit{Elems: []ast.Node{nm("ze")}}, R: a}})
+		case 12: // + chains that go through the temp register, leftmost operand with spare capacity
+			v := newVar("ya")
+			k := ast.Binary{Op: "/", L: ast.Unary{Op: "#", X: a}, R: il(2)}
+			switch r.Intn(4) {
+			case 0:
+				ss = append(ss, ast.Assign{Name: v, Value: ast.Binary{Op: "+", L: ast.Binary{Op: "+", L: ast.Slice{X: a, I: il(0), J: k}, R: arr(90 + r.Intn(9))}, R: arr(80 + r.Intn(9))}})
+			case 1:
+				ss = append(ss, ast.Assign{Name: v, Value: ast.Binary{Op: "+", L: ast.Binary{Op: "+", L: ast.Binary{Op: "+", L: a, R: arr(71)}, R: arr(72)}, R: arr(73)}})
+			case 2:
+				ss = append(ss, ast.Unary{Op: "#", X: ast.Binary{Op: "+", L: ast.Slice{X: a, I: il(0), J: k}, R: arr(60 + r.Intn(9))}})
+				ss = append(ss, ast.Assign{Name: v, Value: ast.Binary{Op: "+", L: ast.Binary{Op: "+", L: icall("mkconst"), R: arr(5)}, R: arr(6)}})
+			default:
+				ss = append(ss, ast.Binary{Op: "==", L: ast.Binary{Op: "+", L: ast.Slice{X: a, I: il(0), J: il(0)}, R: arr(50 + r.Intn(9))}, R: ast.Binary{Op: "+", L: ast.Slice{X: b, I: il(0), J: il(0)}, R: arr(40 + r.Intn(9))}})
+				ss = append(ss, ast.Assign{Name: v, Value: ast.Binary{Op: "+", L: ast.Slice{X: a, I: il(0), J: il(0)}, R: arr(30 + r.Intn(9))}})
+			}
+			vars = append(vars, v)
 		case 11: // re-entered literals
 			v := newVar("ya")
 			switch r.Intn(3) {
